@@ -691,10 +691,11 @@ pub fn check(ctx: &mut Ctx) {
 	ctx.run_sub(&Streams);
 	ctx.run_sub(&DroppedWithFullQueue);
 	ctx.run_sub(&PositionalMethodNotification);
+	ctx.run_sub(&StalledSend);
 }
 
 pub fn replay(file: &serde_json::Value) -> Option<i32> {
-	replay_with(&Streams, file, "C05").or_else(|| replay_with(&DroppedWithFullQueue, file, "C05")).or_else(|| replay_with(&PositionalMethodNotification, file, "C05"))
+	replay_with(&Streams, file, "C05").or_else(|| replay_with(&DroppedWithFullQueue, file, "C05")).or_else(|| replay_with(&PositionalMethodNotification, file, "C05")).or_else(|| replay_with(&StalledSend, file, "C05"))
 }
 
 // ---------------------------------------------------------------------------------------------
@@ -781,5 +782,150 @@ impl SubCheck for PositionalMethodNotification {
 			obs.check(yielded.first() == Some(&json!({"own": 1})), "c05/stream-lost-items", || format!("yielded {yielded:?}; {}", desc()));
 			obs.check(mc.client.is_connected(), "c05/client-disconnected", || format!("{:?}; {}", mc.shared.events.lock(), desc()));
 		});
+	}
+}
+
+// ---------------------------------------------------------------------------------------------
+// the send half is stalled and the request queue is full while the read half has work to hand over
+// ---------------------------------------------------------------------------------------------
+
+#[derive(Clone, Debug, Serialize, Deserialize)]
+pub struct StalledCase {
+	/// max_concurrent_requests = length of the queue between the callers and the send task
+	pub queue: u8,
+	pub id_kind: IdK,
+	pub string_sub_ids: bool,
+	/// the notification for the second subscription is taken in by the transport but handed over late (a `receive()` that
+	/// needs several reads), across the moment the queue gets room again
+	pub held: bool,
+	/// the lagging subscription's notifications arrive in one array
+	pub packed: bool,
+}
+
+pub struct StalledSend;
+
+/// Returns the failures; signatures starting with `c03/` concern the outstanding call, the others the streams.
+pub async fn stalled_send_scenario(case: &StalledCase) -> Vec<(String, String)> {
+	use jsonrpsee_core::client::ClientT;
+	let mut fails: Vec<(String, String)> = vec![];
+	let q = case.queue.clamp(1, 4) as usize;
+	let mc = MockClient::new(ClientCfg { id_kind: case.id_kind, max_concurrent_requests: q, sub_buffer: 1, ..ClientCfg::default() });
+	let desc = || format!("case={case:?} events={:?}", mc.shared.events.lock());
+	let sid = |n: u32| if case.string_sub_ids { json!(format!("s{n}")) } else { json!(n) };
+	// two subscriptions and a call that stays outstanding
+	let mut streams = vec![];
+	for k in 0..2u32 {
+		let c = mc.client.clone();
+		let t = tokio::spawn(async move { c.subscribe::<Value, _>(if k == 0 { "sub_a" } else { "sub_b" }, rpc_params![], "unsub").await });
+		settle().await;
+		let Some(id) = wire_id_of(&mc.wire_all(), if k == 0 { "sub_a" } else { "sub_b" }) else {
+			fails.push(("c05/subscribe-not-sent".into(), desc()));
+			return fails;
+		};
+		mc.push_text(json!({"jsonrpc":"2.0","id":id,"result":sid(k + 1)}).to_string());
+		settle().await;
+		match t.now_or_never() {
+			Some(Ok(Ok(s))) => streams.push(s),
+			other => {
+				fails.push(("c05/subscribe-failed".into(), format!("{:?}; {}", other.map(|r| r.map(|r| r.map(|_| ()))), desc())));
+				return fails;
+			}
+		}
+	}
+	let c = mc.client.clone();
+	let call_x = tokio::spawn(async move { c.request::<Value, _>("call_x", rpc_params![]).await });
+	settle().await;
+	let Some(x_id) = wire_id_of(&mc.wire_all(), "call_x") else {
+		fails.push(("c03/call-not-sent".into(), desc()));
+		return fails;
+	};
+	// the transport's send gets stuck with call_y, further requests fill the queue
+	mc.shared.send_plans.lock().push_back(SendPlan::Gate("g".into()));
+	let c = mc.client.clone();
+	let call_y = tokio::spawn(async move { c.request::<Value, _>("call_y", rpc_params![]).await });
+	settle().await;
+	let mut fillers = vec![];
+	for i in 0..q {
+		let c = mc.client.clone();
+		fillers.push(tokio::spawn(async move { c.notification(&format!("fill_{i}"), rpc_params![]).await }));
+	}
+	settle().await;
+	// subscription 1 falls behind (nobody polls it, buffer 1): the read task has to hand a close notice to the send task
+	let items: Vec<Value> = (0..3).map(|n| json!({"jsonrpc":"2.0","method":"sub_a","params":{"subscription":sid(1),"result":{"a": n}}})).collect();
+	if case.packed {
+		mc.push_text(Value::Array(items).to_string());
+	} else {
+		for it in items {
+			mc.push_text(it.to_string());
+		}
+	}
+	settle().await;
+	// ---- the answer to call_x arrives while the send half is still stalled
+	mc.push_text(json!({"jsonrpc":"2.0","id":x_id,"result":{"x": true}}).to_string());
+	settle().await;
+	match call_x.now_or_never() {
+		Some(Ok(Ok(v))) if v == json!({"x": true}) => {}
+		other => fails.push(("c03/answered-call-still-pending".into(), format!("call_x was answered while the transport's send was stalled and the request queue full: {:?}; {}", other.map(|r| r.map(|r| r.map_err(|e| format!("{e:?}")))), desc()))),
+	}
+	// ---- a notification for subscription 2, possibly handed over by the transport only after the queue got room again
+	let b_item = json!({"jsonrpc":"2.0","method":"sub_b","params":{"subscription":sid(2),"result":{"b": 1}}}).to_string();
+	if case.held {
+		mc.push_text_held(b_item, "h");
+	} else {
+		mc.push_text(b_item);
+	}
+	settle().await;
+	mc.shared.gates.open("g");
+	settle().await;
+	mc.shared.gates.open("h");
+	settle().await;
+	let got_b = streams[1].next().now_or_never();
+	match got_b {
+		Some(Some(Ok(v))) if v == json!({"b": 1}) => {}
+		other => fails.push(("c05/stream-lost-items".into(), format!("subscription 2 was sent {{\"b\":1}}, its stream gave {other:?}; {}", desc()))),
+	}
+	if !mc.client.is_connected() {
+		fails.push(("c05/client-disconnected".into(), desc()));
+	}
+	// the lagging subscription: its first item, then the end, reported as lagged; one unsubscribe request names it
+	let first = streams[0].next().now_or_never();
+	if !matches!(&first, Some(Some(Ok(v))) if *v == json!({"a": 0})) {
+		fails.push(("c05/stream-lost-items".into(), format!("subscription 1: {first:?}; {}", desc())));
+	}
+	let end = streams[0].next().now_or_never();
+	if !matches!(end, Some(None)) {
+		fails.push(("c05/stream-end-state".into(), format!("subscription 1 fell behind but its stream did not end: {end:?}; {}", desc())));
+	} else if !matches!(streams[0].close_reason(), Some(SubscriptionCloseReason::Lagged)) {
+		fails.push(("c05/stream-end-state".into(), format!("subscription 1 ended as {:?}; {}", streams[0].close_reason(), desc())));
+	}
+	let unsubs = mc.wire_all().iter().filter(|m| m["method"] == json!("unsub") && m["params"] == json!([sid(1)])).count();
+	if unsubs != 1 {
+		fails.push(("c05/unsubscribe-request-count".into(), format!("{unsubs} unsubscribe requests name the lagging subscription; {}", desc())));
+	}
+	let _ = (call_y.now_or_never(), fillers);
+	fails
+}
+
+impl SubCheck for StalledSend {
+	type Case = StalledCase;
+	fn name(&self) -> &'static str {
+		"send-stalled-and-queue-full"
+	}
+	fn cases(&self, tier: Tier) -> u32 {
+		tier.pick(800, 8_000)
+	}
+	fn strategy(&self, _tier: Tier) -> BoxedStrategy<StalledCase> {
+		(1u8..5, prop_oneof![Just(IdK::Number), Just(IdK::String)], any::<bool>(), any::<bool>(), any::<bool>()).prop_map(|(queue, id_kind, string_sub_ids, held, packed)| StalledCase { queue, id_kind, string_sub_ids, held, packed }).boxed()
+	}
+	fn run(&self, case: &StalledCase, obs: &mut Obs) {
+		let rt = rt();
+		let fails = rt.block_on(stalled_send_scenario(case));
+		obs.nontrivial();
+		obs.class(if case.held { "stalled:notification-held-inside-receive" } else { "stalled:plain" });
+		for (s, d) in fails {
+			if !s.starts_with("c03/") {
+				obs.fail(s, d);
+			}
+		}
 	}
 }
